@@ -81,6 +81,8 @@ Check(e) ==
     [] OTHER -> Rep(e.id, "UnknownEventKind", FALSE)
 
 Init == l = 1
-Next == l <= Len(Trace) /\ Check(Trace[l]) /\ l' = l + 1
+\* (Check is compared with TRUE so that TLC evaluates it as one expression with short-circuit
+\* semantics instead of splitting its disjunctions into separate successor computations)
+Next == l <= Len(Trace) /\ (Check(Trace[l]) = TRUE) /\ l' = l + 1
 Spec == Init /\ [][Next]_l
 =============================================================================
